@@ -743,13 +743,19 @@ class BlockBase(Base):
             while i < len(classes):
                 if enable_do_label_construct_hook:
                     # Multiple, labelled DO statements can reference the
-                    # same label.
+                    # same label. Comments, includes and directives in front
+                    # of such a DO statement must not hide it.
+                    preceding = []
+                    DynamicImport.add_comments_includes_directives(preceding, reader)
                     obj = startcls(reader)
                     if obj is not None and hasattr(obj, "get_start_label"):
                         if start_label == obj.get_start_label():
+                            content.extend(preceding)
                             content.append(obj)
                             continue
                         obj.restore_reader(reader)
+                    for preceding_obj in reversed(preceding):
+                        preceding_obj.restore_reader(reader)
                 # Attempt to match the i'th subclass
                 cls = classes[i]
                 try:
